@@ -35,6 +35,9 @@ import (
 type csCase struct {
 	Seed uint64 `json:"seed"`
 	Note string `json:"note"`
+	// engine "sysrun": nobody crashes while an honest node is still at height 1, so that the
+	// schedule of height 1 is complete
+	NoCrashH1 bool `json:"no_crash_h1,omitempty"`
 }
 
 type nullExec struct{}
@@ -106,7 +109,28 @@ type cnet struct {
 	madeInvalid map[string]string // blocks built to be invalid, by hash -> what is wrong with them
 	delay    int                   // how often a broadcast message is held back for a while
 	now      int
+	// the global schedule of height 1 for the system model (engine "sysrun"): every input and
+	// majority claim an honest node handled while at height 1, in order, until the first crash
+	glog     []string
+	gCommits []string
+	gStop    bool
 }
+
+// sysNote records one handled event of a node that was at height 1 for the system model
+func (c *cnet) sysNote(nd *vnode, hBefore int64, in string) {
+	if c.gStop || hBefore != 1 {
+		return
+	}
+	c.glog = append(c.glog, sxL(sxB(c.addrs[nd.idx]), in))
+	if nd.cs.GetRoundState().Height > 1 {
+		if h, ok := nd.commits[1]; ok {
+			c.gCommits = append(c.gCommits, sxL(sxB(c.addrs[nd.idx]), sxB(h)))
+		}
+	}
+}
+
+// lastSysLine is the system-model case of the network runConsensusCase ran last ("" if none)
+var lastSysLine string
 
 func (c *cnet) hit(sig, what string) {
 	c.hits = append(c.hits, MonitorHit{Case: c.caseIdx, Sig: sig, What: what})
@@ -522,10 +546,12 @@ func (c *cnet) deliver(nd *vnode, m netMsg) {
 		nd.panicked = msg
 		c.hit("node-panic at=message", fmt.Sprintf("node%d on %s: %s [%s]", nd.idx, in, firstLine(msg), lastPanicWhere))
 		nd.trace = append(nd.trace, sxL(in, "(2)"))
+		c.gStop = true
 		return
 	}
 	outs := c.collect(nd, hBefore)
 	nd.trace = append(nd.trace, sxL(in, c.observe(nd, outs)))
+	c.sysNote(nd, hBefore, in)
 }
 
 func wireReadBlock(ps *types.PartSet, n *int, err *error) *types.Block {
@@ -564,10 +590,12 @@ func (c *cnet) fire(nd *vnode) {
 		nd.panicked = msg
 		c.hit("node-panic at=timeout", fmt.Sprintf("node%d on %s: %s [%s]", nd.idx, in, firstLine(msg), lastPanicWhere))
 		nd.trace = append(nd.trace, sxL(in, "(2)"))
+		c.gStop = true
 		return
 	}
 	outs := c.collect(nd, hBefore)
 	nd.trace = append(nd.trace, sxL(in, c.observe(nd, outs)))
+	c.sysNote(nd, hBefore, in)
 }
 
 // own messages: learn the blocks honest proposers create before delivering their parts
@@ -609,6 +637,7 @@ func (c *cnet) crash(nd *vnode, tear bool) {
 	nd.preCrash = c.stateKey(nd)
 	nd.cs.VerifCloseWAL()
 	nd.down = true
+	c.gStop = true
 	nd.internal = nil
 	nd.timeout = nil
 	tornInput := false
@@ -1098,7 +1127,13 @@ func runConsensusCase(idx int, cse *csCase, workroot string) ([]string, []Monito
 		case k < 94:
 			c.byzAct()
 		case k < 97:
-			if !nd.down && crashes < 3 && len(honest) > 1 {
+			atH1 := false
+			for _, hn := range honest {
+				if x := c.nodes[hn.idx]; x.panicked == "" && !x.down && x.cs.GetRoundState().Height == 1 {
+					atH1 = true
+				}
+			}
+			if !nd.down && crashes < 3 && len(honest) > 1 && !(cse.NoCrashH1 && atH1) {
 				crashes++
 				c.dist["crash"]++
 				if r.Chance(1, 4) {
@@ -1230,6 +1265,20 @@ func runConsensusCase(idx int, cse *csCase, workroot string) ([]string, []Monito
 			}
 		}
 	}
+	lastSysLine = ""
+	if !c.skip && len(c.glog) > 0 {
+		vals := make([]string, c.n)
+		for i := range c.keys {
+			vals[i] = sxL(sxB(c.addrs[i]), sxB(c.keys[i].PubKey().Bytes()), sxZ(c.powers[i]))
+		}
+		var hs []string
+		for _, hn := range honest {
+			hs = append(hs, sxB(c.addrs[hn.idx]))
+		}
+		lastSysLine = sxL(sxL(vals...), sxBool(c.skip), sxL(hs...), sxL(c.glog...), sxL(c.gCommits...))
+		c.dist[fmt.Sprintf("sys-commits=%d", len(c.gCommits))]++
+		c.dist["sys-events"] += len(c.glog)
+	}
 	cse.Note = fmt.Sprintf("n=%d byz=%d skip=%v part=%d steps=%d crashes=%d reached=%d", c.n, nb, c.skip, c.partSize, steps, crashes, target)
 	return lines, c.hits, c.dist, nontrivial
 }
@@ -1245,9 +1294,11 @@ func (c *cnet) claimMaj23(nd *vnode, round int64, t byte, from string, bid types
 		nd.panicked = msg
 		c.hit("node-panic at=peer-maj23", firstLine(msg))
 		nd.trace = append(nd.trace, sxL(in, "(2)"))
+		c.gStop = true
 		return
 	}
 	nd.trace = append(nd.trace, sxL(in, c.observe(nd, c.collect(nd, rs.Height))))
+	c.sysNote(nd, rs.Height, in)
 }
 
 // gossipTo hands a node what the reactors of the other honest nodes would send it: the votes they
@@ -1324,12 +1375,19 @@ func (c *cnet) deliverFromInbox(nd *vnode) {
 }
 
 func init() {
-	engines["consensus"] = func(args []string) error {
-		c, err := commonFlags("consensus", args, nil)
+	engines["consensus"] = func(args []string) error { return consensusEngine("consensus", false, args) }
+	engines["sysrun"] = func(args []string) error { return consensusEngine("sysrun", true, args) }
+}
+
+// consensusEngine runs simulated networks; with sys it emits, instead of one case per honest
+// node, one case per network: the global schedule of height 1 for the system model
+func consensusEngine(name string, sys bool, args []string) error {
+	{
+		c, err := commonFlags(name, args, nil)
 		if err != nil {
 			return err
 		}
-		meta := NewMeta("consensus", c.Seed)
+		meta := NewMeta(name, c.Seed)
 		meta.Rule = "case = one honest validator's run inside a simulated network: 1..7 validators (equal or skewed powers), a Byzantine subset holding < 1/3 of the power whose keys the harness uses to sign equivocating votes (any round, other heights, bad signatures), competing and invalid proposals with their parts, and stray parts; real ConsensusState instances stepped through the verif shim under a random scheduler (own messages, peer messages in any order, duplication, loss, the pending timeout, crash with or without a torn last WAL record, restart with WAL replay), then a fair suffix (everything delivered, gossip of archived messages to nodes behind, timeouts when idle) until every honest node passes the next height; each processed input is followed by an observation of the whole RoundState, the vote bit arrays and majorities of every tracked round, and what the node queued, scheduled and committed; distinct = case line; non-trivial = at least one timeout was handled"
 		var cases []*csCase
 		if c.Replay != "" {
@@ -1341,7 +1399,7 @@ func init() {
 		} else {
 			r := NewRng(c.Seed)
 			for i := 0; i < c.N; i++ {
-				cases = append(cases, &csCase{Seed: r.U64()})
+				cases = append(cases, &csCase{Seed: r.U64(), NoCrashH1: sys})
 			}
 		}
 		work, err := ioutil.TempDir("", "annverif-consensus")
@@ -1355,6 +1413,13 @@ func init() {
 		var names []string
 		for i, cs := range cases {
 			lines, hits, d, nt := runConsensusCase(i, cs, work)
+			if sys {
+				lines = nil
+				if lastSysLine != "" {
+					lines = []string{lastSysLine}
+				}
+				nt = strings.Contains(lastSysLine, "((2 ") || strings.Contains(lastSysLine, " (2 ")
+			}
 			for _, h := range hits {
 				h.Case = line // first line of this network
 				meta.Monitor = append(meta.Monitor, h)
